@@ -7,6 +7,7 @@
 //       TrueSet) configuration (bounded by maxruns schedules per configuration)
 //   drv_pr rand <out> <variant> <N> <maxlen> <runs> <seed>
 //   drv_pr wrap <out> <runs> <seed>       uint8_t ranges ending at 255 (cursor wrap)
+//   drv_pr signed <out> <runs> <seed>     int64_t / int8_t ranges below zero, across zero and at the extremes
 // variant: range | blocks | multi
 #include <stdint.h>
 #include <unistd.h>
@@ -194,6 +195,38 @@ int main(int argc, char** argv) {
       Cfg c = cfgs[r.below(cfgs.size())];
       run_once<uint64_t>(c, {}, [&](int k) { return (int)r.below(k); });
       tr.nontrivial(variant + to_string(c.e - c.s) + "/" + to_string(c.blk) + "/" + to_string(c.ts.size()) + "/" + to_string(vshim::g.taken.size() / 4));
+    }
+    tr.stats();
+    return 0;
+  }
+  if (mode == "signed") {
+    // signed element types: ranges that are negative, cross zero, or touch the extremes of int8_t
+    long runs = atol(argv[3]);
+    vt::Rng r(strtoull(argv[4], nullptr, 10));
+    for (long i = 0; i < runs; i++) {
+      Cfg c;
+      int which = (int)r.below(3);
+      c.variant = which == 0 ? "range" : which == 1 ? "blocks" : "multi";
+      c.n = 1 + (int)r.below(3);
+      c.blk = c.variant == "range" ? 1 : 1 + (long long)r.below(3);
+      int len = (int)r.below(4) * (int)c.blk;
+      bool narrow = r.chance(40);
+      c.bits = narrow ? 8 : 64;
+      switch (r.below(narrow ? 5 : 3)) {
+        case 0: c.s = -(long long)r.below(len + 2); break;          // crosses or touches zero
+        case 1: c.s = -10 - len; break;                             // all negative
+        case 2: c.s = -1; break;
+        case 3: c.s = -128; break;                                  // int8_t minimum
+        default: c.s = 127 - len - (long long)r.below(2); break;    // up to the int8_t maximum
+      }
+      c.e = c.s + len;
+      for (int k = 0; k < len; k++)
+        if (r.chance(25)) c.ts.insert(c.s + k);
+      if (narrow)
+        run_once<int8_t>(c, {}, [&](int k) { return (int)r.below(k); });
+      else
+        run_once<int64_t>(c, {}, [&](int k) { return (int)r.below(k); });
+      tr.nontrivial("signed" + c.variant + to_string(len) + to_string(c.n) + (c.s < 0 && c.e > 0 ? "x" : ""));
     }
     tr.stats();
     return 0;
